@@ -9,7 +9,7 @@ git checkout -q -- . && git clean -fdq crates
 git apply "$d/patch.diff" || { echo "patch does not apply"; exit 2; }
 cargo test --workspace --no-fail-fast --offline >"$d/confirm_suite_with.log" 2>&1; s=$?
 # the repository's timing-dependent stress test fails on unchanged code under load: when it is the ONLY failure, re-run its binary (up to 3 times)
-if [ $s -ne 0 ] && [ "$(grep -c '^test .* FAILED' "$d/confirm_suite_with.log")" = "1" ] && grep -q '^test test_length_data_consistency_stress ... FAILED' "$d/confirm_suite_with.log"; then
+if [ $s -ne 0 ] && [ "$(grep -c '^test [A-Za-z_:0-9]* \.\.\. FAILED' "$d/confirm_suite_with.log")" = "1" ] && grep -q '^test test_length_data_consistency_stress ... FAILED' "$d/confirm_suite_with.log"; then
     for k in 1 2 3; do
         if cargo test -p vecdb --offline --test concurrent_rw >"$d/confirm_suite_with_retry.log" 2>&1; then s=0; echo "(stress test passed on retry $k)"; break; fi
     done
